@@ -50,6 +50,7 @@ type seg struct {
 	data []byte
 	from *UDPAddr
 	err  error
+	cost int
 }
 
 // WriteRec is one logged write.
@@ -79,7 +80,21 @@ type Endpoint struct {
 	Linger    *int
 	Discarded []WriteRec // SetLinger(0): writes of the instant of Close, which the kernel never sent
 	OnDiscard func(w WriteRec)
+	// UDP receive queue of the (virtual) kernel: datagrams wait here until the socket's reader takes
+	// them; one that does not fit is dropped silently, as the kernel does. Accounting follows Linux:
+	// the default capacity is net.core.rmem_default (212992), SetReadBuffer(n) sets 2*n (not below
+	// 2304), a queued datagram is charged with its buffer's true size (512 + its length rounded up to
+	// a multiple of 256: 768 for the small KNXnet/IP frames, i.e. about 277 of them by default).
+	RcvBuf    int
+	rcvQueued int
+	Dropped   [][]byte // datagrams the receive queue had no room for
+	OnDrop    func(data []byte)
 }
+
+// DefaultRcvBuf is the receive buffer size of a UDP socket that was not configured.
+const DefaultRcvBuf = 212992
+
+func dgramCost(n int) int { return 512 + 256*((n+255)/256) }
 
 type UDPConn struct{ *Endpoint }
 type TCPConn struct{ *Endpoint }
@@ -151,7 +166,24 @@ func (e *Endpoint) Inject(data []byte, from *UDPAddr) {
 		return
 	}
 	defer func() { recover() }() // the endpoint may be closed while the queue operation is pending
-	e.q.Send(seg{data: append([]byte(nil), data...), from: from})
+	cost := 0
+	if e.Kind != "tcp-dial" {
+		cost = dgramCost(len(data))
+		lim := e.RcvBuf
+		if lim == 0 {
+			lim = DefaultRcvBuf
+		}
+		if e.rcvQueued+cost > lim {
+			d := append([]byte(nil), data...)
+			e.Dropped = append(e.Dropped, d)
+			if e.OnDrop != nil {
+				e.OnDrop(d)
+			}
+			return
+		}
+		e.rcvQueued += cost
+	}
+	e.q.Send(seg{data: append([]byte(nil), data...), from: from, cost: cost})
 }
 
 // InjectErr makes the next read (after queued data) fail with err (io.EOF = peer closed).
@@ -177,6 +209,7 @@ func (e *Endpoint) next() (seg, error) {
 	if s.err != nil {
 		return seg{}, s.err
 	}
+	e.rcvQueued -= s.cost
 	return s, nil
 }
 
@@ -264,9 +297,15 @@ func (e *Endpoint) SetDeadline(t time.Time) error { return nil }
 
 // Socket options and the rest of the net.UDPConn / net.TCPConn surface a change to the library may
 // start to use: accepted, without effect on the virtual network - except SetLinger(0), see Close.
-func (e *Endpoint) SetReadDeadline(t time.Time) error        { return nil }
-func (e *Endpoint) SetWriteDeadline(t time.Time) error       { return nil }
-func (e *Endpoint) SetReadBuffer(bytes int) error            { return nil }
+func (e *Endpoint) SetReadDeadline(t time.Time) error  { return nil }
+func (e *Endpoint) SetWriteDeadline(t time.Time) error { return nil }
+func (e *Endpoint) SetReadBuffer(bytes int) error {
+	e.RcvBuf = 2 * bytes
+	if e.RcvBuf < 2304 {
+		e.RcvBuf = 2304
+	}
+	return nil
+}
 func (e *Endpoint) SetWriteBuffer(bytes int) error           { return nil }
 func (e *Endpoint) SetKeepAlive(keepalive bool) error        { return nil }
 func (e *Endpoint) SetKeepAlivePeriod(d time.Duration) error { return nil }
